@@ -81,11 +81,6 @@ func c14Judge(k c14Case) *vlib.Failure {
 			if n, sound := c14Sound(k.Set, k.Lines); !sound {
 				return vlib.Failf("preflight approved although element %q is not an allowed name", n)
 			}
-			// what a browser would read from the response must cover every requested name
-			got := strings.Join(res.Hdr["Access-Control-Allow-Headers"], ",")
-			if got != strings.Join(k.Lines, ",") {
-				return vlib.Failf("ACAH %q does not reflect the approved ACRH lines %q", res.Hdr["Access-Control-Allow-Headers"], k.Lines)
-			}
 		}
 	default:
 		return vlib.Failf("bad case")
